@@ -12,17 +12,17 @@ CHECKS = {
  "C03": ("generated concurrent askers against actors ending by every cause; oracle: reply value carries request id + per-handler nonce that must match the trace; ask_join vs scripted job outcome; no operation pending on an ended actor at quiescence; later sends fail at once; plus a generated real-thread experiment (4 lanes x streams of asks from 1-12 askers straddling the moment the actor ends by panic / stop / kill / last drop: every ask must return)", "5/C03"),
  "C04": ("generated termination causes x hook outcomes x phases; oracle: per-actor regular language over hook events, on_stop exactly-once rules, killed flag iff a kill signal could have been consumed; plus real-thread drop / stop races (last handle dropped on another thread, several threads stopping at once: on_stop exactly once with killed=false; threads killing an actor nobody stops: on_stop(true) exactly once)", "5/C04"),
  "C05": ("same generator as C04; oracle: expected ActorResult recomputed from the hook trace alone (phase, killed, error tag, presence and state of the instance, panic payload) + accessor laws on every real result; plus real-thread drop / stop races (result Completed{killed:false} when nobody killed, Completed{killed:true} when only kill() ended it)", "5/C05"),
- "C06": ("generated kill() instants with 0-64 queued messages in every actor phase; oracle: kill never fails/blocks, <=1 handler entry after kill returned, on_stop(killed=true) with no idle gap, result killed=true, queued asks fail (once the hook in progress finishes); plus a generated real-thread experiment (2-6 OS threads calling kill() on one actor at the same instant, kill() hammered while the actor is stopped and joined: every call Ok, JoinHandle resolves, killed=true)", "5/C06"),
+ "C06": ("generated kill() instants with 0-64 queued messages in every actor phase; oracle: kill never fails/blocks, <=1 handler entry after kill returned, on_stop(killed=true) with no idle gap, result killed=true, queued asks fail (once the hook in progress finishes); plus a generated real-thread experiment (2-6 OS threads calling kill() on one actor at the same instant, kill() hammered while the actor is stopped and joined: every call Ok, JoinHandle resolves, killed=true; kill landing just as an actor goes idle after a message is never lost)", "5/C06"),
  "C07": ("generated clone/drop/downgrade/upgrade/erase histories; model = number of strong handles the harness holds; oracle at quiescence: ended gracefully iff unreferenced or stopped; still serving otherwise (probe ask/tell); plus a drop-race experiment (last handle of an actor with a re-arming on_run dropped on another thread: on_stop(false) exactly once, Completed{killed:false}) and a real-thread supplement (multi_thread runtime, OS-thread clients): a referenced, never-stopped actor has not ended and does not refuse probes; after the epilogue - stop() on every other actor, every handle dropped - each idle actor has ended gracefully", "5/C07"),
  "C08": ("generated on_run scripts with message arrivals around their await points; oracle at every on_run progress event: no accepted-unhandled message, no returned kill; Ok(true) re-arms, Ok(false) silences for good without ending the actor, Err -> on_stop(false); plus a real-thread re-arm experiment (ticking on_run; after every message sent from outside the runtime the ticks must continue)", "5/C08"),
  "C09": ("generated capacities/senders/gates; occupancy lower and upper bounds recomputed from the trace at every event and every quiescent instant (accepted <= capacity; a waiting sender implies a full mailbox); Send errors only on ending actors; plus a default-capacity race (child process per case, 2-8 threads calling set_default_mailbox_capacity at once: exactly one winner, spawn() uses its value) and the parked-burst experiment (tells accepted while the actor is parked <= free slots)", "5/C09"),
- "C10": ("generated timeout values (0..40 ms odd/even, huge) vs natural completion instants; all comparisons in exact virtual milliseconds: Ok by the deadline at the completion instant, Timeout exactly at the deadline and only if nothing completed/failed strictly before, other failures at the instant of their cause; is_retryable on every error value seen; plus a real-thread parked-burst experiment: the actor sits in a handler behind a gate only the harness opens, 2-8 threads released together call the timeout variants; each must return within timeout + 10 s while the gate is still closed, Timeout never early, nothing but Ok / Timeout", "5/C10"),
+ "C10": ("generated timeout values (0..40 ms odd/even, huge) vs natural completion instants; all comparisons in exact virtual milliseconds: Ok by the deadline at the completion instant, Timeout exactly at the deadline and only if nothing completed/failed strictly before, other failures at the instant of their cause; is_retryable on every error value seen; plus a real-thread parked-burst experiment: the actor sits in a handler behind a gate only the harness opens, 2-8 threads released together call the timeout variants; each must return within timeout + 10 s while the gate is still closed, Timeout never early, nothing but Ok / Timeout; and a hot loop of timed calls against an actor that answers at once: never Timeout)", "5/C10"),
  "C11": ("generated probes of identity/is_alive/upgrade through every derived handle kind at every lifecycle phase; oracle from the trace (phase known) and the harness-side strong-handle count; plus a generated id race (2-16 threads x 1-300 spawns) and a real-thread supplement (identity through every handle, is_alive before the actor began to end / after its JoinHandle resolved, upgrade while a strong handle is provably held throughout)", "5/C11"),
 }
 
 CHECKS.update({
  "C12": ("fault injection (panic / error in a generated hook invocation of one actor of a 2-4 actor system with peer asks/tells); every other monitor is applied to the whole system plus victim-specific checks, a fresh actor spawned afterwards, dead-letter accounting and (deadlock-detection build) wait-for-graph residue / mutex health; plus the real-thread ask-vs-end race restricted to the failing exit (handler panic): every ask issued around the failure returns", "5/C12"),
- "C13": ("generated operations against actors in every lifecycle state; dead-letter records captured by an in-process tracing subscriber are matched one-to-one (points-to-intervals matching) against failed operations: target id, message type name, reason <-> error kind, operation label; dead_letter_count() delta == number of failures; plus a generated real-thread experiment (2-16 OS threads x 50-450 failing operations each: counter delta == records == failures)", "5/C13"),
+ "C13": ("generated operations against actors in every lifecycle state; dead-letter records captured by an in-process tracing subscriber are matched one-to-one (points-to-intervals matching) against failed operations: target id, message type name, reason <-> error kind, operation label; dead_letter_count() delta == number of failures; plus a generated real-thread experiment (2-16 OS threads x 50-450 failing operations each: counter delta == records == failures; photo finish: replies arriving within microseconds of the ask_with_timeout deadline, counter delta == calls that returned an error)", "5/C13"),
  "C14": ("generated ask topologies (cycles of length 1..5 through handlers and lifecycle hooks, ask and ask_with_timeout); logical wait-for graph of unanswered asks rebuilt from the trace; every ask that would close a cycle must panic naming every participant and nobody may be left waiting; plus a real-thread ring experiment (k actors each asking the next from a handler, all k asks lined up at the same instant on different worker threads: every outer ask returns, every actor ends, a self-ask fails)", "5/C14"),
  "C15": ("same topology generator, acyclic-in-time patterns with timeouts / cancellations / failures; every deadlock panic must be justified by a chain of unanswered asks; the real wait-for graph (verification hook) sampled at every odd virtual millisecond must equal the set of asks in flight; plus real-thread ring / line experiments (a line of asks started at the same instant must never panic; the real wait-for graph is empty after every round; A asks B, B answers and then asks A while other threads keep the graph lock busy: nobody panics)", "5/C15"),
  "C16": ("metamorphic differential: each scenario run with plain handles and with every handle as a bundle of type-erased trait objects and every operation routed through a pseudo-randomly chosen equivalent erased path; canonical traces must be equal; plus a real-thread weak-pin experiment (threads hammering is_alive / identity / clone of each erased weak handle while the only strong reference is dropped: upgrade() is None at once, the actor ends)", "5/C16"),
